@@ -88,7 +88,7 @@ func TestVF_C18(t *testing.T) {
 		"can accommodate it (q=RF div Z, r=RF mod Z: all zones >= q nodes, >= r zones >= q+1 nodes) the per-zone replica counts differ by at most one; " +
 		"configurations whose construction never terminates (lap without progress on hook ketama.scan, see C19) are skipped and counted; " +
 		"distinct = configuration; non-trivial = ring built and n >= 2")
-	n := r.N(150, 2500)
+	n := r.N(150, 1800)
 	r.Require(int64(n)*int64(nSeries)/2, n/2)
 	r.Assume("endpoint addresses within one hashring are distinct and non-empty (Endpoint.UnmarshalJSON rejects an empty address)")
 	r.Assume("hashmod is generated without availability zones (the constructor rejects them by design)")
